@@ -99,6 +99,9 @@ class NTPClient(Service, discriminator="ntp-client"):
         :param session_id: The Session ID the payload is to originate from. Optional.
         :return: True if successful, False otherwise.
         """
+        if not super().receive(payload=payload, session_id=session_id, **kwargs):
+            return False
+
         if not isinstance(payload, NTPPacket):
             self.sys_log.warning(f"{self.name}: Failed to parse NTP update")
             return False
